@@ -6,7 +6,8 @@ from dvlib.core import Broken
 ID = 'C32'
 
 PROPS_FILE = 'theories/props/Properties_C32.v'
-CONE = ['theories/BufLog.v', 'theories/PLog.v', 'theories/Repl.v', 'theories/proofs/C19.v', 'theories/proofs/C08.v', 'theories/proofs/C07.v', 'theories/proofs/C32.v']
+CONE = ['theories/BufLog.v', 'theories/PLog.v', 'theories/Repl.v', 'theories/proofs/C19.v', 'theories/proofs/C08.v', 'theories/proofs/C07.v', 'theories/proofs/C32.v',
+        'theories/AbstractRaft.v', 'theories/proofs/AR_election.v', 'theories/proofs/AR_logs.v', 'theories/proofs/AR_complete.v', 'theories/proofs/AR_sms.v', 'theories/proofs/AR_live.v']
 
 def check(run):
     thorough = run.tier == 'thorough'
@@ -17,7 +18,7 @@ def check(run):
         core.harness_build()
         r = run.rng('c32'); cases = []; dist = {}
         for k in range(600 if thorough else 80):
-            n = 3 if k % 3 else 5
+            n = (5, 3, 4, 3)[k % 4]
             cap = r.choice([2, 3, 5])
             pre, tags = cluster.gen_schedule(r, n, r.range(10, 45), faults=True, kills=False)
             sched = pre + cluster.healing_suffix(n, 3, 12) + [[5, a, 777] for a in range(1, n + 1)] + cluster.replication_rounds(n, 5)
@@ -41,8 +42,8 @@ def replay(path): return cluster.replay_cluster(path, [cluster.recovered])
 META = {
     'title': 'The cluster recovers once faults stop',
     'level': 'proof',
-    'technique': 'partial: Rocq theorem for the deterministic progress core (catch-up in ceil(lag/cap) fair rounds) + exploration of real Raft clusters under a seeded faulty prefix followed by a fixed fair suffix (liveness with randomised timers is not a theorem here)',
-    'text': "PARTIAL. Rocq (C32_catchup_rounds_partial, on the replication models tied to the code by C08/C19/C07): for every leader log, cap >= 1 and follower agreeing with the leader up to its own last index, each fair heartbeat round delivers a non-empty contiguous request that the follower accepts and that extends the agreement by min(cap, lag); after any k with lag <= k*cap rounds the follower holds the leader's whole log (purge-free logs). Liveness under randomised election timers and runtime scheduling cannot be stated on the models of this development; what is checked is that from the state reached by any seeded faulty prefix (message loss/duplication/delay, step-downs, restarts) a fixed fair suffix - each node gets one undisturbed election timeout, then a bounded number of replication rounds in which everything is delivered - ends with one leader of the highest term, a fresh write accepted and committed, identical logs and commit indexes on all nodes. Partial by nature: 'bounded time' is a bound in rounds.",
-    'note': "Partial: the theorem covers the replication progress core only; leader election within bounded time and real-time bounds are explored on simulated clusters (rounds, not wall-clock). Catch-up by snapshot is not exercised.",
+    'technique': 'partial: Rocq theorems for recoverability of the abstract Raft system (no reachable state is a dead end: C32_recoverable) and for the deterministic progress core of replication (catch-up in ceil(lag/cap) fair rounds) + exploration of real Raft clusters under a seeded faulty prefix followed by a fixed fair suffix (liveness with randomised timers is not a theorem here)',
+    'text': "PARTIAL. Rocq (C32_recoverable, on DE.AbstractRaft - the system whose steps every simulated execution of the real nodes is replayed against in C01/C04/C05): from EVERY reachable state, with any non-empty duplicate-free node set, there is a finite continuation (election timeouts of a node with a most up-to-date log until its term exceeds every term in the system, grants by all others, its election, a no-op, acceptance of its whole log by every node, commit, propagation of the commit index) ending in a state with one leader of a term above all earlier ones, every node in that term holding the leader's log, all of it committed on every node; i.e. no fault history leaves the protocol in a dead end. Rocq (C32_catchup_rounds_partial, on the replication models tied to the code by C08/C19/C07): for every leader log, cap >= 1 and follower agreeing with the leader up to its own last index, each fair heartbeat round delivers a non-empty contiguous request that the follower accepts and that extends the agreement by min(cap, lag); after any k with lag <= k*cap rounds the follower holds the leader's whole log (purge-free logs). Liveness under randomised election timers and runtime scheduling cannot be stated on the models of this development; what is checked is that from the state reached by any seeded faulty prefix (message loss/duplication/delay, step-downs, restarts) a fixed fair suffix - each node gets one undisturbed election timeout, then a bounded number of replication rounds in which everything is delivered - ends with one leader of the highest term, a fresh write accepted and committed, identical logs and commit indexes on all nodes. Partial by nature: 'bounded time' is a bound in rounds.",
+    'note': "Partial: C32_recoverable is a possibility (EF) statement on the abstract system, C32_catchup_rounds_partial covers the replication progress core; that the real nodes take such a continuation under fair timers (the other direction of the refinement) is explored, not proved; leader election within bounded time and real-time bounds are explored on simulated clusters (rounds, not wall-clock). Catch-up by snapshot is not exercised.",
     'design_ref': 'DESIGN.md §4 C32',
 }
